@@ -245,6 +245,7 @@ def run_shard(prop, run, exe, tier, seed, cases, start, shard, nshards, outdir, 
     skip = []
     resumes = 0
     hang_exits = 0
+    crash_keys = {}
     os.makedirs(outdir, exist_ok=True)
     cur_start = start
     while True:
@@ -357,6 +358,11 @@ def run_shard(prop, run, exe, tier, seed, cases, start, shard, nshards, outdir, 
             for kind, frame, ex in sans[:3]:
                 res.violations.append({"key": "%s/%s/%s" % (prop, kind, frame), "detail": ex, "case": prog,
                                        "seed": seed, "run": run["name"]})
+            ck = "%s/%s" % (sans[0][0], sans[0][1])
+            crash_keys[ck] = crash_keys.get(ck, 0) + 1
+            if crash_keys[ck] >= 8:
+                # the same report eight times in one shard: enough evidence, stop burning restarts on it
+                break
         elif tsan_fatal:
             res.crashes += 1
         elif rc < 0 or rc in (134, 139):
